@@ -38,7 +38,10 @@ _p("C05", [], ["schemas"], MON)
 _p("C06", [], ["readers"], MON)
 _p("C07", [], ["readers"], MON)
 _p("C08", [], ["channels"], MON)
-_p("C09", [], ["pipeline"], MON)
+_p("C09", ["instances", "profiling", "shexing"], ["pipeline"],
+   "Deductive: two counting steps commute (lemma over the step contract of pass 2: same counters, same nodes, same class lists in either order); node and "
+   "class names are opaque atoms in the verified counting code, so consistent renaming of blank nodes cannot be observed (parametricity of the accepted "
+   "encoding); sorting is by probability with the group's members preserved. Permutations and relabelings of whole documents, and the choice under ties: " + MON)
 _p("C10", ["instances"], ["pipeline"],
    "Deductive: relevance tests (predicate == instantiation property and (all classes or object among the target IRIs); model __eq__ methods inlined from the "
    "real source) and the per-triple step of pass 1 with whole-view frames (node->classes dictionary as a shared heap cell); rdf:type is an ordinary property "
@@ -50,8 +53,14 @@ _p("C11", ["c11_shacl"], ["schemas"],
 _p("C12", ["filtering", "c20_config"], ["pipeline"],
    "Deductive: the threshold is applied once, on raw candidates (filter contracts with the counting recurrence; >= from the statement), the range check of the "
    "argument, frequency = n/N. Monotonicity over pairs of thresholds on whole runs: " + MON)
-_p("C13", [], ["pipeline"], MON)
-_p("C14", [], ["pipeline"], MON)
+_p("C13", ["shexing"], ["pipeline"],
+   "Deductive: the tuning pipeline rewrites exactly what each switch documents (cardinality after tuning = documented function of the cardinality and "
+   "probability before; counts, kinds, properties never written; with every switch off nothing is written; disable_comments touches comments only; a "
+   "disjunction keeps property, cardinality and figures). Presentation options and decimals rounding on whole runs: " + MON)
+_p("C14", ["instances", "profiling"], ["pipeline"],
+   "Deductive: the inverse counting step is the mirror of the direct one (same clause text on the third component, kind of the subject, shape kinds only "
+   "for IRI subjects) and leaves the outgoing features of the object untouched; both threshold filters carry the same contract. The three-run metamorphic "
+   "relation (with / without inverse_paths / reversed graph): " + MON)
 _p("C15", [], ["schemas"], MON)
 _p("C16", ["instances"], ["pipeline"],
    "Deductive: counter invariant of the instance cap (every class counter <= limit, an instantiation triple is rejected exactly when its class is full, early "
